@@ -50,6 +50,8 @@ def scopes(chk):
     sc.append(('nearkw', {'Budget': 3 if quick else 4, 'TextPool': ['t', ' '], 'ComPool': [], 'MathKinds': ['$'], 'MEnvNames': ['equation'],
                           'VerbNames': ['verbatim'], 'VerbBodies': ['x{ '], 'Leaves': [], 'CmdNames': ['items', 'endx', 'beginx', 'lefty', 'it'],
                           'EnvNames': ['equationx', 'verbatimx', 'itemizes', 'e*'], 'ListNames': ['itemize', 'enumerate'], 'MaxSib': 2}))
+    sc.append(('twinargs', {'MEnvNames': [], 'VerbNames': [], 'Leaves': [], 'Labels': [''], 'ComPool': [], 'ListNames': [], 'MathKinds': [], 'Budget': 7,
+                            'TextPool': ['c', 't'], 'EnvNames': [], 'CmdNames': ['a'], 'MaxSib': 1, 'MaxArgs': 3, 'MaxDepth': 3}))
     sc.append(('envargs', {'Budget': 4 if quick else 5, 'TextPool': ['a', ' ', '['], 'ComPool': [], 'MathKinds': ['$'], 'MEnvNames': [],
                            'VerbNames': [], 'Leaves': [], 'ListNames': [], 'MaxSib': 2, 'MaxDepth': 3}))
     sc.append(('lists', {'Budget': 5 if quick else 6, 'TextPool': ['a', ' ', '\n'], 'ComPool': ['c'], 'MathKinds': ['$'], 'MEnvNames': [],
